@@ -204,7 +204,7 @@ func runListenScenario(t *testing.T, id string, monitor bool, script []scriptRea
 	}
 	cases := []verifh.Case{c1}
 	if !monitor && running {
-		// the same run as a scheduler case (Corr.C07): every transmission, multicast ones included, must be
+		// the same run as a scheduler case (Corr.C06): every transmission, multicast ones included, must be
 		// explained by the periodic loop and the VALID solicitations alone
 		p := rand.New(rand.NewSource(seed))
 		var loopDraws, evs []string
@@ -230,7 +230,7 @@ func runListenScenario(t *testing.T, id string, monitor bool, script []scriptRea
 		}
 		cases = append(cases, verifh.Case{
 			ID:   id + "#run",
-			Corr: "Corr.C07",
+			Corr: "Corr.C06",
 			Coq: verifh.App("mkRun", "false", verifh.Z(int64(200*time.Second)), verifh.Z(int64(600*time.Second)), verifh.Z(t0),
 				verifh.List(loopDraws), verifh.List(evs), verifh.Z(hz+1), verifh.List(os),
 				verifh.Z(int64(cntUni)), verifh.Z(int64(cntMulti)), verifh.Z(int64(len(evs)))),
